@@ -6,7 +6,7 @@ use std::collections::{BTreeMap, BTreeSet};
 
 use super::gen::{Action, Scenario};
 use super::hosts::{make_host, Host, HostSel, StepObs};
-use super::model::{EffectDesc, HostKind, Model, Outcome, StepOut};
+use super::model::{Arity, EffectDesc, HostKind, Model, Outcome, ReqKey, RootId, StepOut};
 use super::ops::{Event, LogEntry};
 use crate::rng::{fnv, mix};
 use crate::runner::{Cov, RunInfo, Violation};
@@ -61,12 +61,9 @@ pub fn emitter_order_ok(log: &[LogEntry], last: &mut BTreeMap<(u32, u64), u32>) 
 }
 
 fn diff_effects(model: &[EffectDesc], real: &[EffectDesc]) -> (Vec<String>, Vec<String>) {
-    let mut m: Vec<_> = model.iter().map(eff_key).collect();
-    let mut r: Vec<_> = real.iter().map(eff_key).collect();
-    m.sort();
-    r.sort();
+    let m: Vec<_> = model.iter().map(eff_key).collect();
+    let r: Vec<_> = real.iter().map(eff_key).collect();
     let mut missing = vec![];
-    let mut extra = vec![];
     let mut rr = r.clone();
     for x in &m {
         if let Some(p) = rr.iter().position(|y| y == x) {
@@ -75,10 +72,7 @@ fn diff_effects(model: &[EffectDesc], real: &[EffectDesc]) -> (Vec<String>, Vec<
             missing.push(format!("{x:?}"));
         }
     }
-    for y in rr {
-        extra.push(format!("{y:?}"));
-    }
-    (missing, extra)
+    (missing, rr.iter().map(|y| format!("{y:?}")).collect())
 }
 
 fn diff_log(model: &[LogEntry], real: &[LogEntry]) -> (Vec<String>, Vec<String>) {
@@ -111,93 +105,168 @@ fn subsets(z: &[u64]) -> Vec<BTreeSet<u64>> {
 pub struct RunOutcome {
     pub info: RunInfo,
     pub obs: Vec<(StepObs, Vec<Outcome>)>,
+    /// per step boundary (before step i): droppable outstanding requests, registered handles, live roots
+    pub boundaries: Vec<Boundary>,
+}
+
+#[derive(Clone, Debug, Default)]
+pub struct Boundary {
+    pub droppable: Vec<ReqKey>,
+    pub handles: Vec<u32>,
+    pub roots: Vec<RootId>,
 }
 
 fn viol(id: &str, clause: &str, msg: String) -> Violation {
     Violation::new(format!("{id}:{clause}"), msg)
 }
 
-/// Execute the scenario on its host, judging every step.
-pub fn run_scenario(scn: &Scenario, ck: &Checks, cov: &mut Cov) -> Result<RunOutcome, Violation> {
-    run_scenario_on(scn, scn.host, ck, cov)
+struct Run<'a> {
+    id: &'static str,
+    ck: &'a Checks,
+    sel: HostSel,
+    host: Box<dyn Host>,
+    cands: Vec<Model>,
+    order: BTreeMap<(u32, u64), u32>,
+    shape: u64,
+    max_outstanding: usize,
+    faults: u32,
+    discarded: bool,
+    full_log_len: usize,
+    dropped_all: bool,
+    peak_outstanding: usize,
+    obs_all: Vec<(StepObs, Vec<Outcome>)>,
+    boundaries: Vec<Boundary>,
+    sticky_seen: bool,
+    defer_drops: bool,
+    bridge_dups: bool,
 }
 
-pub fn run_scenario_on(scn: &Scenario, sel: HostSel, ck: &Checks, cov: &mut Cov) -> Result<RunOutcome, Violation> {
-    let id = ck.id;
-    let mut host = make_host(sel);
-    let kind = if sel.is_direct() { HostKind::Direct } else { HostKind::Core };
-    let mut m0 = Model::new(kind);
-    m0.g.legacy_supported = sel.supports_legacy();
-    let mut cands: Vec<Model> = vec![m0];
-    let mut obs_all = vec![];
-    let mut order: BTreeMap<(u32, u64), u32> = BTreeMap::new();
-    let mut shape: u64 = fnv(format!("{sel:?}").as_bytes());
-    let mut max_outstanding = 0usize;
-    let mut faults = 0u32;
-    let mut discarded = false;
-    let mut full_log_len = 0usize;
-    let mut dropped_all = false;
-    let tokens0 = super::ops::live_tokens();
-    let mut peak_outstanding_bridge = 0usize;
+enum StepEnd {
+    Continue,
+    Stop,
+}
 
-    let ctrl = if scn.buggify { Some(install_buggify(scn.hash_seed)) } else { None };
-
-    'steps: for (si, step) in scn.steps.iter().enumerate() {
+impl Run<'_> {
+    fn step(&mut self, si: usize, step: &[Action], cov: &mut Cov) -> Result<StepEnd, Violation> {
+        let id = self.id;
+        let ck = self.ck;
+        let sel = self.sel;
+        if ck.model {
+            let m = &self.cands[0];
+            self.boundaries.push(Boundary {
+                droppable: m
+                    .outstanding()
+                    .iter()
+                    .filter(|o| o.droppable && o.arity != Arity::Never && !(o.arity == Arity::Once && o.resolved))
+                    .map(|o| o.key)
+                    .collect(),
+                handles: m.abortable_handles(),
+                roots: m.roots.iter().filter(|r| !r.cmd.is_finished()).map(|r| r.id.clone()).collect(),
+            });
+        }
         let mut outcomes = vec![];
+        // Dropping a request (or a rejected resolution) is not a call into a core: what it makes
+        // possible is owed by the next call
+        let mut had_call = sel.is_direct() && !self.defer_drops;
         for act in step {
             cov.bump(&format!("action:{}", act.kind()));
-            shape = mix(shape, fnv(act.kind().as_bytes()));
+            self.shape = mix(self.shape, fnv(act.kind().as_bytes()));
             match act {
                 Action::Event(ev) => {
-                    if dropped_all {
+                    if self.dropped_all {
                         continue;
                     }
                     if let Event::Run(c) = ev {
-                        shape = mix(shape, shape_of_cmd(c));
+                        self.shape = mix(self.shape, shape_of_cmd(c));
                     }
                     if let Event::Abort(_) = ev {
-                        faults += 1;
+                        self.faults += 1;
                         cov.bump("fault:abort_cmd");
                     }
-                    if let Err(e) = host.send_event(ev.clone()) {
+                    if let Err(e) = self.host.send_event(ev.clone()) {
                         return Err(viol(id, "host_error", format!("step {si}: {e}")));
                     }
-                    for m in cands.iter_mut() {
+                    had_call = true;
+                    for m in self.cands.iter_mut() {
                         m.send_event(ev);
                     }
                 }
                 Action::Resolve { site, arg, v } => {
                     let key = (*site, *arg);
-                    if !host.holds(key) {
+                    if !self.host.holds(key) {
+                        if self.host.is_consumed(key) && !self.bridge_dups {
+                            // a duplicate for a consumed one-shot is withheld from the bridge (known
+                            // finding S6 territory, injected only in dedicated C02 runs); a correct
+                            // bridge would reject it without effect
+                            cov.bump("bridge_dup_withheld");
+                            outcomes.push(Outcome::Rejected);
+                            for m in self.cands.iter_mut() {
+                                m.resolve(key, *v);
+                            }
+                            continue;
+                        }
+                        // a deliberate duplicate over the bridge?
+                        if let Some(r) = self.host.resolve_consumed(key, *v) {
+                            self.faults += 1;
+                            cov.bump("fault:bridge_dup_response");
+                            match r {
+                                Ok(Outcome::Rejected) => {
+                                    outcomes.push(Outcome::Rejected);
+                                    for m in self.cands.iter_mut() {
+                                        m.resolve(key, *v);
+                                    }
+                                }
+                                Ok(o) => {
+                                    return Err(viol(id, "bridge_duplicate:accepted_on_vacant_id", format!("step {si}: a second response for the consumed one-shot {key:?} was {o:?} although its id is vacant")));
+                                }
+                                Err(e) if e.starts_with("misrouted") => {
+                                    cov.tolerate(viol(id, "bridge_duplicate:accepted", format!("step {si}: a second response for the consumed one-shot {key:?} reached an unrelated newer request ({e})")))?;
+                                    // an unrelated request was resolved or consumed: the rest cannot be judged
+                                    return Ok(StepEnd::Stop);
+                                }
+                                Err(e) => {
+                                    cov.tolerate(viol(id, "bridge_duplicate:panic", format!("step {si}: a second response for the consumed one-shot {key:?}: {e}")))?;
+                                    return Ok(StepEnd::Stop);
+                                }
+                            }
+                            continue;
+                        }
                         // only after shrinking: the request does not exist in this variant
-                        let known = cands.iter().any(|m| m.g.reqs.get(&key).is_some_and(|r| !r.dropped));
-                        if known && ck.model {
+                        let known = self.cands.iter().any(|m| m.g.reqs.get(&key).is_some_and(|r| !r.dropped));
+                        if known && ck.model && !sel.is_bridge() {
                             return Err(viol(id, "effects:missing", format!("step {si}: the shell never received request {key:?} which the reference semantics say was issued")));
                         }
                         cov.bump("skipped_action");
                         continue;
                     }
-                    let real = match host.resolve(key, *v) {
+                    let real = match self.host.resolve(key, *v) {
                         Ok(o) => o,
                         Err(e) => {
-                            let clause = if e.starts_with("panic:") { format!("panic:{}", e.split(':').nth(1).unwrap_or("?")) } else { "host_error".into() };
+                            let clause = if let Some(rest) = e.strip_prefix("panic:") {
+                                format!("panic:{}", rest.split(':').next().unwrap_or("?"))
+                            } else {
+                                "host_error".into()
+                            };
                             return Err(viol(id, &clause, format!("step {si}: resolve {key:?}: {e}")));
                         }
                     };
                     outcomes.push(real);
+                    if real == Outcome::Accepted {
+                        had_call = true;
+                    }
                     if ck.model {
                         let mut kept = vec![];
                         let mut expected = vec![];
-                        for mut m in std::mem::take(&mut cands) {
+                        for mut m in std::mem::take(&mut self.cands) {
                             let before = m.g.reqs.get(&key).cloned();
                             let exp = m.resolve(key, *v);
                             expected.push(exp);
                             if exp == real {
                                 if let Some(b) = before {
                                     if kept.is_empty() {
-                                        classify_resolve(&b, exp, cov, &mut faults);
-                                        if b.arity == super::model::Arity::Once && exp == Outcome::Accepted {
-                                            host.consumed(key);
+                                        classify_resolve(&b, exp, cov, &mut self.faults);
+                                        if b.arity == Arity::Once && exp == Outcome::Accepted {
+                                            self.host.consumed(key);
                                         }
                                     }
                                 }
@@ -211,57 +280,71 @@ pub fn run_scenario_on(scn: &Scenario, sel: HostSel, ck: &Checks, cov: &mut Cov)
                                 format!("step {si}: resolving {key:?} was {real:?}, reference semantics say {expected:?}"),
                             ));
                         }
-                        cands = kept;
+                        self.cands = kept;
                     }
                 }
                 Action::Drop { site, arg } => {
                     let key = (*site, *arg);
-                    if !host.holds(key) {
+                    if !self.host.holds(key) {
                         cov.bump("skipped_action");
                         continue;
                     }
-                    if host.drop_req(key) {
-                        faults += 1;
+                    if self.host.drop_req(key) {
+                        self.faults += 1;
                         cov.bump("fault:drop");
-                        for m in cands.iter_mut() {
+                        for m in self.cands.iter_mut() {
                             m.drop_req(key);
                         }
                     }
                 }
                 Action::DropRoot(rid) => {
-                    faults += 1;
+                    self.faults += 1;
                     cov.bump("fault:drop_cmd");
-                    host.drop_root(rid);
-                    for m in cands.iter_mut() {
+                    self.host.drop_root(rid);
+                    for m in self.cands.iter_mut() {
                         m.drop_root(rid);
                     }
                 }
                 Action::DropAll => {
-                    faults += 1;
+                    self.faults += 1;
                     cov.bump("fault:drop_core");
-                    dropped_all = true;
-                    host = drop_everything(host, sel);
-                    for m in cands.iter_mut() {
+                    self.dropped_all = true;
+                    self.host.drop_all_roots();
+                    for m in self.cands.iter_mut() {
                         m.drop_all();
                     }
                 }
             }
         }
-        let obs = host.settle();
+        let obs = if !had_call && sel.is_direct() {
+            // the holder of the command does not poll it either
+            StepObs::default()
+        } else {
+            self.host.settle()
+        };
         cov.bump("sim_steps");
+        if let Some(e) = self.host.take_errors().into_iter().next() {
+            return Err(viol(id, "bridge_invariant", format!("step {si}: {e}")));
+        }
         if obs.reentered {
             return Err(viol(id, "update_reentered", format!("step {si}: update was entered while another update was running")));
         }
-        if let Err(e) = emitter_order_ok(&obs.new_log, &mut order) {
+        if let Err(e) = emitter_order_ok(&obs.new_log, &mut self.order) {
             return Err(viol(id, "event_order", format!("step {si}: {e}")));
         }
-        full_log_len += obs.new_log.len();
+        self.full_log_len += obs.new_log.len();
 
+        if !had_call {
+            if !obs.effects.is_empty() || !obs.new_log.is_empty() {
+                return Err(viol(id, "output_without_call", format!("step {si}: outputs appeared although no call was made: {:?} {:?}", obs.effects, obs.new_log)));
+            }
+            self.obs_all.push((obs, outcomes));
+            return Ok(StepEnd::Continue);
+        }
         if ck.model {
             let mut next: Vec<Model> = vec![];
-            let mut first_out: Option<(StepOut, BTreeMap<_, _>)> = None;
-            let mut first_sticky: Option<String> = None;
-            for m in &cands {
+            let mut first_out: Option<(StepOut, BTreeMap<RootId, bool>)> = None;
+            for m in &self.cands {
                 let mut trial = m.clone();
                 let none = BTreeSet::new();
                 let out0 = trial.settle(&none);
@@ -276,14 +359,14 @@ pub fn run_scenario_on(scn: &Scenario, sel: HostSel, ck: &Checks, cov: &mut Cov)
                     };
                     if let Some(why) = &m2.g.ambiguous {
                         cov.bump(&format!("discard:{}", why.split(' ').take(3).collect::<Vec<_>>().join("_")));
-                        discarded = true;
-                        break 'steps;
+                        self.discarded = true;
+                        return Ok(StepEnd::Stop);
                     }
                     if first_out.is_none() {
                         first_out = Some((out.clone(), m2.roots_done()));
                     }
-                    if first_sticky.is_none() {
-                        first_sticky = m2.g.sticky.clone();
+                    if m2.g.sticky.is_some() {
+                        self.sticky_seen = true;
                     }
                     let ok = effects_equal(&out.effects, &obs.effects)
                         && log_multiset_equal(&out.log, &obs.new_log)
@@ -297,15 +380,16 @@ pub fn run_scenario_on(scn: &Scenario, sel: HostSel, ck: &Checks, cov: &mut Cov)
                 }
             }
             if next.is_empty() {
-                if let Some(what) = cands.iter().find_map(|m| m.g.sticky.clone()).or_else(|| first_sticky.clone()) {
+                if self.sticky_seen {
                     // the reference discarded a task which can never be woken again, the
                     // implementation is known to keep it: a C07/C13 matter, judged there only
                     if ck.id == "C07" || ck.id == "C13" {
-                        return Err(viol(id, &format!("stuck_task_never_evicted:{what}"), format!("step {si} on {sel:?}: a task whose every request, stream and handle is gone was not discarded ({what} keeps a clone of its waker); real done flags {:?}", obs.roots_done)));
+                        cov.tolerate(viol(id, "stuck_task_never_evicted:then_stream", format!("step {si} on {sel:?}: a task whose every request and stream is gone was not discarded (a stream chain using then_stream keeps a clone of its own waker alive); real done flags {:?}", obs.roots_done)))?;
+                    } else {
+                        cov.bump("discard:known_divergence_stuck_task");
+                        self.discarded = true;
                     }
-                    cov.bump("discard:known_divergence_stuck_task");
-                    discarded = true;
-                    break 'steps;
+                    return Ok(StepEnd::Stop);
                 }
                 let (out, mdone) = first_out.unwrap();
                 let (miss, extra) = diff_effects(&out.effects, &obs.effects);
@@ -332,71 +416,174 @@ pub fn run_scenario_on(scn: &Scenario, sel: HostSel, ck: &Checks, cov: &mut Cov)
             }
             if next.len() > 24 {
                 cov.bump("discard:candidate_overflow");
-                discarded = true;
-                break 'steps;
+                self.discarded = true;
+                return Ok(StepEnd::Stop);
             }
-            cands = next;
-            let outstanding = cands[0].outstanding().len();
-            max_outstanding = max_outstanding.max(outstanding);
+            self.cands = next;
+            let outstanding = self.cands[0].outstanding().len();
+            self.max_outstanding = self.max_outstanding.max(outstanding);
         }
 
         // quiescence: nothing runnable is left behind by a call
-        if (ck.quiescence || ck.occupancy) && !sel.is_direct() && !dropped_all {
-            let st = host.stats();
+        if (ck.quiescence || ck.occupancy) && !sel.is_direct() && !self.dropped_all {
+            let st = self.host.stats();
             if ck.quiescence && (st.ready_queue != 0 || st.spawn_queue != 0 || st.pending_events != 0 || st.pending_effects != 0) {
                 return Err(viol(id, "not_quiescent", format!("step {si}: runtime queues after the call returned: {st:?}")));
             }
             if ck.occupancy && ck.model {
-                let m = &cands[0];
-                let bound = m.live_command_roots() + m.legacy.len() + 1;
-                if st.executor_tasks > bound && cands.iter().all(|m| st.executor_tasks > m.live_command_roots() + m.legacy.len() + 1) {
-                    return Err(viol(id, "occupancy:executor_tasks", format!("step {si}: {} executor tasks with only {} live commands/tasks in the reference", st.executor_tasks, bound - 1)));
+                let fits = |m: &Model| st.executor_tasks <= m.live_command_roots() + m.legacy.len();
+                if !self.cands.iter().any(fits) && (self.sticky_seen || self.cands.iter().any(|m| m.g.sticky.is_some())) {
+                    cov.tolerate(viol(id, "stuck_task_never_evicted:then_stream", format!("step {si} on {sel:?}: {} executor tasks although every request and stream of the stuck chain is gone (a stream chain using then_stream keeps a clone of its own waker alive)", st.executor_tasks)))?;
+                    return Ok(StepEnd::Stop);
                 }
-                peak_outstanding_bridge = peak_outstanding_bridge.max(m.outstanding().len());
+                if !self.cands.iter().any(fits) {
+                    let m = &self.cands[0];
+                    cov.tolerate(viol(id, "occupancy:executor_tasks", format!("step {si}: {} executor tasks with only {} live commands and {} live legacy tasks in the reference", st.executor_tasks, m.live_command_roots(), m.legacy.len())))?;
+                }
+                if let Some((never, once, many)) = self.host.registry_kinds() {
+                    let count = |m: &Model, a: Arity| {
+                        m.outstanding()
+                            .iter()
+                            .filter(|o| o.arity == a && if a == Arity::Once { !o.resolved } else { o.rx_alive })
+                            .count()
+                    };
+                    let m = &self.cands[0];
+                    let open_once = count(m, Arity::Once);
+                    let live_many = count(m, Arity::Many);
+                    self.peak_outstanding = self.peak_outstanding.max(open_once + live_many);
+                    if never > 0 {
+                        cov.tolerate(viol(id, "registry_keeps:never", format!("step {si}: the bridge registry holds {never} notification entries, none of which can ever be resolved")))?;
+                    }
+                    if many > live_many && !self.cands.iter().any(|m| many <= count(m, Arity::Many)) {
+                        cov.tolerate(viol(id, "registry_keeps:ended_stream", format!("step {si}: the bridge registry holds {many} stream entries, the reference has {live_many} live subscriptions")))?;
+                    }
+                    if once > open_once && !self.cands.iter().any(|m| once <= count(m, Arity::Once)) {
+                        cov.tolerate(viol(id, "registry_keeps:resolved_once", format!("step {si}: the bridge registry holds {once} one-shot entries, the reference has {open_once} unanswered")))?;
+                    }
+                }
             }
         }
         if ck.occupancy && sel.is_direct() && ck.model {
-            let st = host.stats();
-            if st.ready_queue != 0 || st.spawn_queue != 0 {
-                return Err(viol(id, "not_quiescent", format!("step {si}: command queues after settle: {st:?}")));
+            let st = self.host.stats();
+            // (stale task ids in the ready queue of an aborted command are a few integers, not work)
+            if st.spawn_queue != 0 {
+                cov.tolerate(viol(id, "leak:unspawned_tasks", format!("step {si}: tasks (futures and everything they captured) sit in a command's spawn queue after settle: {st:?}")))?;
             }
         }
         for o in &outcomes {
             cov.trace(&format!("{o:?}"));
         }
         cov.trace(&format!("{:?}{:?}", obs.effects, obs.new_log));
-        obs_all.push((obs, outcomes));
+        self.obs_all.push((obs, outcomes));
+        Ok(StepEnd::Continue)
+    }
+}
+
+pub fn run_scenario_on(scn: &Scenario, sel: HostSel, ck: &Checks, cov: &mut Cov) -> Result<RunOutcome, Violation> {
+    let id = ck.id;
+    let kind = if sel.is_direct() { HostKind::Direct } else { HostKind::Core };
+    let mut m0 = Model::new(kind);
+    m0.g.legacy_supported = sel.supports_legacy();
+    let tokens0 = super::ops::live_tokens();
+    let ctrl = if scn.buggify { Some(install_buggify(scn.hash_seed)) } else { None };
+    let mut run = Run {
+        id,
+        ck,
+        sel,
+        host: make_host(sel),
+        cands: vec![m0],
+        order: BTreeMap::new(),
+        shape: fnv(format!("{sel:?}").as_bytes()),
+        max_outstanding: 0,
+        faults: 0,
+        discarded: false,
+        full_log_len: 0,
+        dropped_all: false,
+        peak_outstanding: 0,
+        obs_all: vec![],
+        boundaries: vec![],
+        sticky_seen: false,
+        defer_drops: scn.defer_drops,
+        bridge_dups: scn.bridge_dups,
+    };
+
+    let mut stopped = false;
+    for (si, step) in scn.steps.iter().enumerate() {
+        match run.step(si, step, cov)? {
+            StepEnd::Continue => {}
+            StepEnd::Stop => {
+                stopped = true;
+                break;
+            }
+        }
+    }
+    if !stopped && scn.adaptive_drain && ck.model {
+        // faults off: end every stream, answer every one-shot, as long as the reference says
+        // something is outstanding
+        let mut v = 9_000_000u64;
+        for round in 0..400 {
+            let m = &run.cands[0];
+            let outs = m.outstanding();
+            let act = if let Some(o) = outs.iter().find(|o| o.arity == Arity::Many && o.droppable && !sel.is_bridge()) {
+                Some(Action::Drop { site: o.key.0, arg: o.key.1 })
+            } else if let Some(o) = outs.iter().find(|o| o.arity == Arity::Once && !o.resolved) {
+                v += 1;
+                Some(Action::Resolve { site: o.key.0, arg: o.key.1, v })
+            } else {
+                None
+            };
+            let Some(act) = act else { break };
+            match run.step(scn.steps.len() + round, &[act], cov)? {
+                StepEnd::Continue => {}
+                StepEnd::Stop => {
+                    stopped = true;
+                    break;
+                }
+            }
+        }
     }
 
     // end of run
-    if !discarded && ck.model {
-        let m = &cands[0];
+    let discarded = run.discarded;
+    if !discarded && !stopped && ck.model {
+        let m = &run.cands[0];
         cov.add("probe:evicted_task", m.g.evictions);
         cov.add("probe:zombie_reaped", m.g.zombies_reaped);
-        if full_log_len > 0 {
-            let real_full = host.full_log();
-            if !dropped_all && !cands.iter().any(|m| log_multiset_equal(&m.log, &real_full)) {
+        if run.full_log_len > 0 && !run.dropped_all {
+            let real_full = run.host.full_log();
+            if !run.cands.iter().any(|m| log_multiset_equal(&m.log, &real_full)) {
                 return Err(viol(id, "view_mismatch", format!("final view differs from the reference log: real {} entries, reference {}", real_full.len(), m.log.len())));
             }
         }
         if ck.occupancy {
             // after the drain everything is resolved or dropped: nothing may linger
-            let done_everywhere = cands.iter().any(Model::all_done);
-            let st = host.stats();
+            let st = run.host.stats();
             let toks = super::ops::live_tokens() - tokens0;
-            if done_everywhere && !dropped_all {
-                if st.executor_tasks != 0 || st.command_tasks != 0 {
-                    return Err(viol(id, "leak:tasks", format!("after the drain phase the reference has nothing left but the host still holds {st:?}")));
-                }
-                if toks != cands[0].g.tokens && !cands.iter().any(|m| m.g.tokens == toks) {
-                    return Err(viol(id, "leak:tokens", format!("{toks} drop-counted tokens alive after the drain phase (reference {})", cands[0].g.tokens)));
+            if !run.dropped_all {
+                // some candidate state of the reference must account for what the host still holds
+                let accounted = run.cands.iter().any(|m| {
+                    st.executor_tasks <= m.live_command_roots() + m.legacy.len()
+                        && m.g.tokens == toks
+                        && (!m.all_done() || (st.executor_tasks == 0 && st.command_tasks == 0))
+                });
+                if !accounted {
+                    let m = &run.cands[0];
+                    let clause = if run.cands.iter().any(|m| m.g.tokens == toks) { "leak:tasks_after_drain" } else { "leak:tokens_after_drain" };
+                    cov.tolerate(viol(id, clause, format!("after the drain phase the host holds {st:?} and {toks} drop-counted tokens; the reference has {} live commands, {} live legacy tasks, {} tokens", m.live_command_roots(), m.legacy.len(), m.g.tokens)))?;
                 }
             }
-            if dropped_all && toks != 0 {
-                return Err(viol(id, "leak:tokens_after_drop", format!("{toks} tokens alive after the core/commands were dropped")));
+            if sel.is_bridge()
+                && st.registry_max_id as usize > 2 * run.peak_outstanding + 8
+                && !cov.known.contains(&format!("{id}:registry_keeps:never"))
+            {
+                cov.tolerate(viol(id, "registry_growth", format!("largest effect id {} with at most {} requests outstanding at once", st.registry_max_id, run.peak_outstanding)))?;
+            }
+            if run.dropped_all && toks != 0 {
+                cov.tolerate(viol(id, "leak:tokens_after_drop", format!("{toks} tokens alive after the core/commands were dropped")))?;
             }
         }
     }
+    let Run { host, shape, max_outstanding, mut faults, obs_all, boundaries, .. } = run;
     drop(host);
     if ck.occupancy && !discarded {
         let toks = super::ops::live_tokens() - tokens0;
@@ -410,11 +597,10 @@ pub fn run_scenario_on(scn: &Scenario, sel: HostSel, ck: &Checks, cov: &mut Cov)
         crux_core::verif::set_thread_controller(None);
     }
     let nontrivial = max_outstanding >= 2 && (faults > 0 || out_of_order(scn));
-    Ok(RunOutcome { info: RunInfo { shape, nontrivial, discarded }, obs: obs_all })
+    Ok(RunOutcome { info: RunInfo { shape, nontrivial, discarded }, obs: obs_all, boundaries })
 }
 
 fn classify_resolve(before: &super::model::ReqState, exp: Outcome, cov: &mut Cov, faults: &mut u32) {
-    use super::model::Arity;
     match (before.arity, exp) {
         (Arity::Never, _) => {
             *faults += 1;
@@ -439,30 +625,22 @@ fn classify_resolve(before: &super::model::ReqState, exp: Outcome, cov: &mut Cov
     }
 }
 
-/// was any request answered while an older one was still outstanding?
+/// was any request answered while an older one was still outstanding? (cheap proxy on the script)
 fn out_of_order(scn: &Scenario) -> bool {
-    // cheap proxy on the script: a resolve whose value order differs from the request order
-    let mut seen_sites: Vec<(u32, u64)> = vec![];
-    let mut ooo = false;
+    let mut last: Option<(u32, u64)> = None;
     for st in &scn.steps {
         for a in st {
             if let Action::Resolve { site, arg, .. } = a {
-                if let Some(last) = seen_sites.last() {
-                    if (*site, *arg) < *last {
-                        ooo = true;
+                if let Some(l) = last {
+                    if (*site, *arg) < l {
+                        return true;
                     }
                 }
-                seen_sites.push((*site, *arg));
+                last = Some((*site, *arg));
             }
         }
     }
-    ooo
-}
-
-fn drop_everything(mut host: Box<dyn Host>, _sel: HostSel) -> Box<dyn Host> {
-    // the shell keeps its requests, the core/commands go away
-    host.drop_all_roots();
-    host
+    false
 }
 
 pub fn shape_of_cmd(c: &super::ast::Cmd) -> u64 {
